@@ -39,3 +39,30 @@ Lemma keep_first_loses_text :
   decode (hstack_keep_first (DStr 3, [ES [1; 2; 3]]) (DStr 9, [ES [19; 1; 14; 4; 19; 20; 15; 14; 5]]))
   = [VText [1; 2; 3]; VText [19; 1; 14]].
 Proof. reflexivity. Qed.
+
+Lemma store_cast_id a b e :
+  same_family a b = true -> (fits a e = true \/ fits b e = true) -> in_domain e = true ->
+  store_el (cast (join a b) e) = cast (join a b) e.
+Proof.
+  destruct a as [| |x], b as [| |y], e as [z|t|s]; simpl; intros F H D; try discriminate; try reflexivity;
+    try (destruct H; discriminate); unfold round32; rewrite D; reflexivity.
+Qed.
+
+Lemma stored_hstack_decodes x y :
+  same_family (fst x) (fst y) = true -> forallb (fits (fst x)) (snd x) = true -> forallb (fits (fst y)) (snd y) = true ->
+  forallb in_domain (snd x) = true -> forallb in_domain (snd y) = true ->
+  decode (stored (hstack x y)) = decode x ++ decode y.
+Proof.
+  intros F Hx Hy Dx Dy. destruct (hstack_decodes x y F Hx Hy) as [Hd _]. rewrite <- Hd.
+  destruct x as [a xs], y as [b ys]. unfold decode, stored, hstack. simpl in *. rewrite !map_map.
+  apply map_ext_in. intros e He. rewrite forallb_forall in Hx, Hy, Dx, Dy.
+  apply in_app_or in He as [He | He]; rewrite store_cast_id; auto.
+Qed.
+
+(* an int32 column that shares its label with float data: 16777217 is stored as float32 and comes back as 16777216 *)
+Lemma stored_large_int_altered :
+  exists x y, same_family (fst x) (fst y) = true /\ forallb (fits (fst x)) (snd x) = true /\ forallb (fits (fst y)) (snd y) = true
+              /\ decode (stored (hstack x y)) <> decode x ++ decode y.
+Proof.
+  exists (DInt, [EI 16777217]%Z), (DFloat, [EH 5]%Z). repeat split; try reflexivity. vm_compute. discriminate.
+Qed.
